@@ -13,9 +13,9 @@ func TestVerifC14Sph(t *testing.T) {
 	deep := c14Cfg{rbSizes: []int{1, 1200}, sendSizes: []int{1200}, noAckOnly: true, noRpInit: true}
 	// (name, alphabet, depth quick, depth thorough, share of the thorough deadline, shares left)
 	explore.Main("C14", []explore.Part{
-		c14SphPart("amp-deep", deep, 14, 20, 1, 9),
-		c14SphPart("amp-full", full, 5, 7, 3, 8),
-		c14SphPart("amp-core", core, 6, 8, 2, 5),
+		c14SphPart("amp-deep", deep, 14, 20, 2, 10),
+		c14SphPart("amp-full", full, 5, 7, 4, 8),
+		c14SphPart("amp-core", core, 6, 7, 1, 4),
 		c14SphPart("amp-lean", lean, 7, 9, 3, 3),
 	}, func(msg string) { t.Fatal(msg) })
 }
